@@ -34,7 +34,7 @@ def stepC04 (ts : List String) : String :=
     match n.toNat?, t.toNat?, ops.mapM BallotCountDrv.parseOp with
     | some n, some t10, some ops =>
       let S := (List.range n).map (· + 1)
-      let r := run Gen.C04.keyChecked S t10 keysOf emptyRec (ops.filterMap id)
+      let r := run (fun f => f == "E") Gen.C04.keyChecked S t10 keysOf emptyRec (ops.filterMap id)
       if r.emitted.isEmpty then "-" else "+".intercalate (r.emitted.map BallotCountDrv.describe)
     | _, _, _ => "bad-op"
   | _ => "bad-op"
